@@ -84,7 +84,8 @@ def set_universe(objs):
             pass
     for o in objs:
         walk(o, 0)
-    for x in (0, 1, 2, -1, 'x', '', None, True, 'zz_unused'):
+    import typing as _ty
+    for x in (0, 1, 2, -1, 'x', '', None, True, 'zz_unused', (), (int,), int, list, tuple, str, _ty.List[int]):
         add(x)
     UNIVERSE[:] = out
 
@@ -232,6 +233,9 @@ def dynattr(o, name):
 
 
 def has_attr(o, name):
+    # special methods are looked up on the type (len(list) fails although list.__len__ exists)
+    if name.startswith('__') and name.endswith('__'):
+        return hasattr(type(o), name)
     return hasattr(o, name)
 
 
